@@ -16,7 +16,7 @@ import vlib
 import worldgen
 import worlds
 
-ASSUMPTIONS = ["allocation failure for buffers sized by declared lengths is runtime (known finding K2)", "clap argument parsing of the CLI is not modelled; the binary is exercised as a child process"]
+ASSUMPTIONS = ["special files: a FIFO at an export location blocks the run in open() (known finding K4); other special files are not generated", "allocation failure for buffers sized by declared lengths is runtime (known finding K2)", "clap argument parsing of the CLI is not modelled; the binary is exercised as a child process"]
 GARBAGE = [b"", b"garbage", b"d4:infoi1ee", b"d4:infod4:name1:a12:piece lengthi4e6:pieces0:ee", b"le", b"d4:infod6:lengthi4e4:name2:..12:piece lengthi4e6:pieces20:aaaaaaaaaaaaaaaaaaaaee"]
 
 
@@ -200,6 +200,33 @@ def cli_runs(ctx, n):
     return out
 
 
+def fifo_run(ctx):
+    """One run of the CLI with a named pipe at the export location of the torrent's only file.  True if it had to be killed."""
+    import hashlib
+    exe = cli_binary()
+    root = tempfile.mkdtemp(prefix="tbv-", dir=runlib.SANDBOX_BASE)
+    try:
+        content = b"abc"
+        info = {b"name": b"t", b"length": 3, b"piece length": 4, b"pieces": hashlib.sha1(content).digest()}
+        raw = docgen.enc({b"info": info})
+        ih = hashlib.sha1(docgen.enc(info)).hexdigest()
+        os.makedirs(os.path.join(root, "scan"))
+        open(os.path.join(root, "scan", "t"), "wb").write(content)
+        d = os.path.join(root, "export", ih, "Data")
+        os.makedirs(d)
+        os.mkfifo(os.path.join(d, "t"))
+        tp = os.path.join(root, "t.torrent")
+        open(tp, "wb").write(raw)
+        try:
+            subprocess.run([exe, "--torrents", tp, "--scan", os.path.join(root, "scan"), "--export", os.path.join(root, "export"), "--threads", "1"],
+                           stdout=subprocess.PIPE, stderr=subprocess.PIPE, timeout=5)
+            return False
+        except subprocess.TimeoutExpired:
+            return True
+    finally:
+        shutil.rmtree(root, ignore_errors=True)
+
+
 def correspondence(ctx):
     tier = ctx["tier"]
     findings, broken, runs = [], [], []
@@ -304,6 +331,14 @@ def correspondence(ctx):
                         break
         if bad and len(findings) < 5:
             findings.append({"scenario": {"tag": "cli", "world_seed": ctx["seed"], "index": c["i"]}, "violated_clause": bad, "stderr": c["stderr"][-400:]})
+    # (e) a FIFO at an export location (known finding K4): the run must return; it blocks in open()
+    hung = fifo_run(ctx)
+    stats["cli runs"] += 1
+    if hung:
+        if any(k.get("status") == "known" and k.get("id") == "K4" for k in vlib.known_findings()):
+            known_lines.add("K4: the export location of a torrent file is a FIFO: the run never returns (open() of the named pipe blocks)")
+        elif len(findings) < 5:
+            findings.append({"scenario": {"tag": "fifo", "world_seed": ctx["seed"]}, "violated_clause": "with a FIFO at the export location of a torrent file the CLI does not return (killed after the time limit)"})
     out = runprops.result("C16", ctx, runs, findings, broken, dict(stats),
                           "near-loadable documents (a degenerate value in the name / path variant the loader uses, same-length files on disk); bad path of every kind (relative / missing / a file; also missing or a file INSIDE a valid scan directory, added next to the valid ones) in every position (each scan directory, the export directory); no loadable torrent; unloadable documents among loadable ones; degenerate loadable torrents (padding-only pieces, empty files, 2^46-byte declared lengths, odd names); the CLI binary with unloadable torrent files; each run in a child process",
                           "bad_path_no_effect (prelude program), solve_prog_good (no panic), load_total proved; tied to the code by trace validation and child-process outcomes")
